@@ -166,6 +166,10 @@ pub struct Runner<'a> {
     pub solo: Option<SoloSpec<'a>>,
     cur: usize,
     cur_client: usize,
+    /// C12 counting convention (does the version being added count?): both are tolerated as long
+    /// as the whole run is consistent with one of them
+    conv_before_ok: bool,
+    conv_after_ok: bool,
     /// a client id no protocol request of the history uses (for refused-request probes)
     pub stranger: Uuid,
     /// C09: only the operating client's own ids are abstracted; all others stay concrete
@@ -205,7 +209,7 @@ impl<'a> Runner<'a> {
             seen.insert(c.id);
         }
         let rng = Rng::new(hist.seed).fork(0x4D4F4E);
-        Runner { subj, hist, mon, clients, seen, viol: vec![], cov: Cov::default(), rng, log: vec![], walk_every: 1, solo: None, cur: 0, cur_client: 0, stranger: Rng::new(hist.seed).fork(0x57A6).uuid(), own_only: false, sym_cache: HashMap::new() }
+        Runner { subj, hist, mon, clients, seen, viol: vec![], cov: Cov::default(), rng, log: vec![], walk_every: 1, solo: None, cur: 0, cur_client: 0, conv_before_ok: true, conv_after_ok: true, stranger: Rng::new(hist.seed).fork(0x57A6).uuid(), own_only: false, sym_cache: HashMap::new() }
     }
 
     fn v(&mut self, property: &'static str, msg: String) {
@@ -1132,11 +1136,18 @@ impl<'a> Runner<'a> {
                             (age, s.since)
                         });
                         let want = spec_urgency(&self.subj.config, snap_before);
+                        let want_after = spec_urgency(&self.subj.config, snap_before.map(|(a, s)| (a, s.saturating_add(1))));
                         self.cov.hit(format!("urgency:{:?}:{}", urg, if snap_before.is_some() { "snap" } else { "nosnap" }));
                         if *urg != want {
+                            self.conv_before_ok = false;
+                        }
+                        if *urg != want_after {
+                            self.conv_after_ok = false;
+                        }
+                        if !self.conv_before_ok && !self.conv_after_ok {
                             self.v("C12", format!(
-                                "accepted AddVersion for client #{c} on {} reported urgency {:?} but with targets (days={}, versions={}) and snapshot (age days, versions since)={:?} the urgency must be {:?}",
-                                self.subj.kind.name(), urg, self.subj.config.snapshot_days, self.subj.config.snapshot_versions, snap_before, want
+                                "accepted AddVersion for client #{c} on {} reported urgency {:?} but with targets (days={}, versions={}) and snapshot (age days, versions since)={:?} the urgency must be {:?} ({:?} if the version being added is counted); no single counting convention explains this run",
+                                self.subj.kind.name(), urg, self.subj.config.snapshot_days, self.subj.config.snapshot_versions, snap_before, want, want_after
                             ));
                         }
                     }
